@@ -89,7 +89,7 @@ def zcheck(solver, timeout_ms, want_model=False):
         finally:
             os._exit(0)
     os.close(wr)
-    deadline = time.time() + timeout_ms / 1000.0 + 2.0
+    deadline = time.time() + timeout_ms / 1000.0 + min(2.0, max(0.3, timeout_ms / 1000.0))      # grace before the child is killed
     buf = b''
     done = False
     while True:
@@ -668,6 +668,7 @@ class Abstractor:
         s.memo = {}
         s.atoms = {}
         s.timeout = timeout
+        s.budget = float(os.environ.get('VERIF_ABS_BUDGET_S', '90'))
         s.queries = 0
         s.qtime = 0.0
         s.side = []
@@ -863,6 +864,11 @@ class Abstractor:
         if z3.is_rational_value(d):
             return d.as_fraction() == 0
         den = [q != 0 for q in denominators([u, v])]
+        if s.qtime > s.budget:
+            # the time budget of this abstraction for argument-equality questions is used up (only seen on code whose arguments
+            # no longer match the contract's): not merging is always sound - it can only leave the final question harder
+            s.skipped = getattr(s, 'skipped', 0) + 1
+            return False
         t = time.time()
         r = z3.unknown
         # step 0: anti-unification - maximal subterms shared by both sides become fresh variables (a valid generalisation
@@ -1073,6 +1079,7 @@ QLOG = []
 Z3V = 'z3 ' + z3.get_version_string()
 
 
+ABS_MAX = [0.0]          # largest time one abstraction spent on argument-equality questions (budget: Abstractor.budget)
 THOROUGH = os.environ.get('VERIF_TIER') == 'thorough'
 RECHECK = {}
 
@@ -1158,6 +1165,7 @@ def prove_eq(code, spec, hyps=(), timeout=60000, abstract=True, tol=None):
     res = prove(goal, H + A.side, min(timeout, 5000) if differ else timeout, use_axioms=False)
     res['atoms'] = sum(len(v) for v in A.atoms.values())
     res['arg_queries'] = A.queries
+    ABS_MAX[0] = max(ABS_MAX[0], A.qtime)
     if differ:
         res['fingerprints_differ'] = True
     if res['result'] != 'discharged' and not differ:
@@ -1378,4 +1386,5 @@ def prove_abs(goal, hyps=(), timeout=60000, ax_rounds=1, extra_terms=()):
     res = prove(g, H + AX + A.side, timeout, use_axioms=False)
     res['atoms'] = sum(len(v) for v in A.atoms.values())
     res['arg_queries'] = A.queries
+    ABS_MAX[0] = max(ABS_MAX[0], A.qtime)
     return res
